@@ -3,6 +3,7 @@
 #![cfg_attr(not(feature = "std"), no_std)]
 #![allow(unused_imports, dead_code, clippy::all)]
 #![recursion_limit = "512"]
+#![cfg_attr(all(kani, feature = "alloc"), feature(allocator_api))]
 
 #[cfg(feature = "alloc")]
 extern crate alloc;
